@@ -88,6 +88,12 @@ def gen_plan(rng, tier, idx, opts):
             ops.append({"op": "sibling", "n": rng.randint(1, 20)})     # a similar generator is created and used in between
         elif r < 0.38 and not bursty:
             ops.append({"op": "set_shape", "shape": rng.choice([None, 1, 2, 4, [2, 2], [3, 2], [2, 2, 2]])})
+            if rng.random() < 0.35:
+                ops[-1]["same"] = True                    # the CURRENT shape is assigned again (the phases are redrawn all the same)
+            prev_n = next((o_["n"] for o_ in reversed(ops[:-1]) if o_["op"] == "generate" and o_["n"]), None)
+            if prev_n is not None and rng.random() < 0.6:
+                ops.append({"op": "generate", "n": prev_n})      # and the next request has the size of the previous one
+                pos += prev_n
         elif r < 0.46 and bursty and pos < limit // 2 and sum(1 for o in ops if o["op"] == "burst") < 3:
             # a long run of tiny requests: what a streaming user does, and where per-call drift would accumulate
             cnt = int(10 ** rng.uniform(2, 3.7))
@@ -199,6 +205,9 @@ def execute(plan):
                     log.add("get")
                 elif o == "set_shape":
                     ns = op["shape"]
+                    if op.get("same"):
+                        cs = gen.shape
+                        ns = None if cs is None else [int(x) for x in cs]
                     if ns is not None and L * int(np.prod(ns)) > 64:
                         continue
                     gen.shape = None if ns is None else (tuple(ns) if isinstance(ns, list) else int(ns))
